@@ -13,6 +13,7 @@ import (
 	"github.com/nspcc-dev/neo-go/pkg/core/block"
 	"github.com/nspcc-dev/neo-go/pkg/core/dao"
 	"github.com/nspcc-dev/neo-go/pkg/core/mpt"
+	"github.com/nspcc-dev/neo-go/pkg/core/state"
 	"github.com/nspcc-dev/neo-go/pkg/core/storage"
 	"github.com/nspcc-dev/neo-go/pkg/core/transaction"
 	"github.com/nspcc-dev/neo-go/pkg/io"
@@ -184,6 +185,71 @@ func framePayload(fr []byte) ([]byte, bool) {
 
 // ---- value-level extra laws -------------------------------------------------------------------------------------
 
+// Reference hashes: the signed parts of header, extensible payload and state root written out by hand from the
+// protocol's field lists, hashed with SHA-256.
+func headerExtra(v any, e []byte, lab func(string)) error {
+	h := v.(*block.Header)
+	var b []byte
+	b = binary.LittleEndian.AppendUint32(b, h.Version)
+	b = append(b, h.PrevHash[:]...)
+	b = append(b, h.MerkleRoot[:]...)
+	b = binary.LittleEndian.AppendUint64(b, h.Timestamp)
+	b = binary.LittleEndian.AppendUint64(b, h.Nonce)
+	b = binary.LittleEndian.AppendUint32(b, h.Index)
+	b = append(b, h.PrimaryIndex)
+	b = append(b, h.NextConsensus[:]...)
+	if h.StateRootEnabled {
+		b = append(b, h.PrevStateRoot[:]...)
+	}
+	if want := sha(b); want != h.Hash() {
+		return fmt.Errorf("Hash() %s is not SHA-256 of the hashable fields (%s)", hx(h.Hash()), hx(want))
+	}
+	// the full encoding is those fields, one witness count byte and the witness
+	full := append(append([]byte{}, b...), 1)
+	full = putVarRef(full, uint64(len(h.Script.InvocationScript)), 0)
+	full = append(full, h.Script.InvocationScript...)
+	full = putVarRef(full, uint64(len(h.Script.VerificationScript)), 0)
+	full = append(full, h.Script.VerificationScript...)
+	if !bytes.Equal(full, e) {
+		return fmt.Errorf("encoding differs from the protocol's field list: %s", firstDiff(fmt.Sprintf("%x", e), fmt.Sprintf("%x", full)))
+	}
+	return nil
+}
+
+func extensibleExtra(v any, e []byte, lab func(string)) error {
+	x := v.(*payload.Extensible)
+	var b []byte
+	b = putVarRef(b, uint64(len(x.Category)), 0)
+	b = append(b, x.Category...)
+	b = binary.LittleEndian.AppendUint32(b, x.ValidBlockStart)
+	b = binary.LittleEndian.AppendUint32(b, x.ValidBlockEnd)
+	b = append(b, x.Sender[:]...)
+	b = putVarRef(b, uint64(len(x.Data)), 0)
+	b = append(b, x.Data...)
+	c := *x
+	if want := sha(b); want != (&c).Hash() {
+		return fmt.Errorf("Hash() %s is not SHA-256 of the unsigned fields (%s)", hx((&c).Hash()), hx(want))
+	}
+	if !bytes.HasPrefix(e, b) {
+		return fmt.Errorf("encoding does not start with the unsigned fields")
+	}
+	return nil
+}
+
+func mptRootExtra(v any, e []byte, lab func(string)) error {
+	r := v.(*state.MPTRoot)
+	b := []byte{r.Version}
+	b = binary.LittleEndian.AppendUint32(b, r.Index)
+	b = append(b, r.Root[:]...)
+	if want := sha(b); want != r.Hash() {
+		return fmt.Errorf("Hash() %s is not SHA-256 of version, index and root (%s)", hx(r.Hash()), hx(want))
+	}
+	if !bytes.HasPrefix(e, b) {
+		return fmt.Errorf("encoding does not start with the unsigned fields")
+	}
+	return nil
+}
+
 // txExtra: the hash/size of a transaction is the same on every path it can arrive by.
 func txExtra(v any, e []byte, lab func(string)) error {
 	tx := v.(*transaction.Transaction)
@@ -218,6 +284,15 @@ func txExtra(v any, e []byte, lab func(string)) error {
 	return nil
 }
 
+func mustEnc(v io.Serializable) []byte {
+	w := io.NewBufBinWriter()
+	v.EncodeBinary(w.BinWriter)
+	if w.Err != nil {
+		panic(w.Err)
+	}
+	return w.Bytes()
+}
+
 func mustHashable(tx *transaction.Transaction) []byte {
 	b, err := tx.EncodeHashableFields()
 	if err != nil {
@@ -230,6 +305,9 @@ func blockExtra(sr bool) func(v any, e []byte, lab func(string)) error {
 	return func(v any, e []byte, lab func(string)) error {
 		b := v.(*block.Block)
 		want := blockIdent(b)
+		if err := headerExtra(&b.Header, mustEnc(&b.Header), lab); err != nil {
+			return err
+		}
 		if got := io.GetVarSize(b); got != len(e) || b.GetExpectedBlockSize() != len(e) {
 			return fmt.Errorf("GetVarSize %d / GetExpectedBlockSize %d, encoding has %d bytes", got, b.GetExpectedBlockSize(), len(e))
 		}
